@@ -3,7 +3,7 @@
     relative branch to a label are unchanged (the delta cancels, for every delta in Z), and a data
     field holding a label value moves by exactly delta modulo its width. *)
 From Coq Require Import List ZArith String Bool Lia.
-From Gosk Require Import Base.Bytes Model.Ast Model.Eval Model.Asm Lemmas.AsmLemmas Lemmas.DataLemmas.
+From Gosk Require Import Base.Bytes Model.Ast Model.Eval Model.Asm Lemmas.AsmLemmas Lemmas.DataLemmas Lemmas.CodegenLift Model.Encoder.
 Import ListNotations.
 Local Open Scope Z_scope.
 
@@ -21,3 +21,21 @@ Theorem C16_origin_blind : forall E m st dol dol' len o, pos_indep o = true ->
   gen_ocode E m st dol len o = gen_ocode E m st dol' len o.
 Proof. intros. apply gen_pos_indep; assumption. Qed.
 Print Assumptions C16_origin_blind.
+
+(** whole programs: everything codegen emits for an ocode list made of data, reservations, far jumps, no-operand
+    instructions, INT/RET, branches to LABELS and ALIGNB to boundaries the move preserves is byte-identical after
+    the program (origin and every label) has been moved by delta - for every delta in Z.  Excluded, because they
+    are exactly the absolute references that must move: instructions with operands (C16_label_field_moves) and
+    branches to numeric addresses. *)
+Theorem C16_codegen_reloc : forall E m st dol delta os acc d, forallb (reloc_ok delta) os = true ->
+  codegen E m (shift_sym delta st) (dol + delta) acc d os = codegen E m st dol acc d os.
+Proof. intros. apply codegen_reloc. assumption. Qed.
+Print Assumptions C16_codegen_reloc.
+
+Example C16_codegen_reloc_runs :
+  let os := [OData 1 [1; 2; 3]; OJcc M16 "JMP" (JLabel "l"); OAlignb 4; OJcc M16 "JE" (JLabel "k"); OData 2 [7]] in
+  let st := [("l"%string, 31744 + 300); ("k"%string, 31744)] in
+  forallb (reloc_ok 1024) os = true
+  /\ codegen gosk_encoder M16 (shift_sym 1024 st) (31744 + 1024) [] false os = codegen gosk_encoder M16 st 31744 [] false os
+  /\ codegen gosk_encoder M16 st 31744 [] false os = GOk [1; 2; 3; 233; 38; 1; 0; 0; 116; 246; 7; 0] false.
+Proof. repeat split; vm_compute; reflexivity. Qed.
